@@ -37,7 +37,8 @@ RULE = ("cases = the generators of C01-C08, C10, C15 themselves (imported, not c
         "generator, sub-sampled per owner with every corpus/edge case kept and a bias to the smallest and the largest "
         "inputs) plus a C19 class of extreme shapes (1x1, single row/column, objects touching all four borders, empty label "
         "sets, > 1000 initial queue rows / queue growth past 1000 rows for propagate, maximally sparse assignment problems, "
-        "length-1 strided histograms); every case is run through the owner's impl with the kernel spy installed (recorded "
+        "length-1 strided histograms, integer- and float-typed 0/1 footprints for grey_reconstruction, one leak-observation "
+        "case); every case is run through the owner's impl with the kernel spy installed (recorded "
         "calls -> extracted kernel_pre_K) and - a sub-sample in the quick tier, all of them in the thorough tier - against "
         "the address-sanitised build; non-trivial = at least one compiled kernel was entered; distinct by hash of the case")
 TRUSTED = [
@@ -46,7 +47,13 @@ TRUSTED = [
     "the spy (harness/props/c19.py:_install_spies) replaces names in the importing modules' namespaces and in the "
     "extension modules' own dictionaries; it reads shapes/strides/values of the arguments before forwarding them unchanged",
     "grey_reconstruction_loop: the padding geometry (image shape, padding) is read from the caller's frame locals",
-    "AddressSanitizer (gcc libasan) with detect_leaks=0: leaks are not observed; allocation pairing is a model fact",
+    "AddressSanitizer (gcc libasan) with detect_leaks=0 (CPython itself 'leaks'); leaks are OBSERVED separately, not "
+    "proved: every kernel class is called 2000 times (skeletonize 133) in one process against the plain build and the "
+    "growth of glibc's mallinfo2 bytes-in-use must stay below 8 bytes per call (unchanged tree: 0-300 bytes in total); "
+    "allocation pairing of heap.pxd is additionally a model fact (C19_heap_safe)",
+    "convex_hull_ijv: kernel_pre_hull is the overflow flag of C02's executable model evaluated on the recorded call "
+    "(per-instance discharge until C02's general no_overflow exists); index lists are repeat-free (C02's domain)",
+    "augmenting_row_reduction model: float comparisons are an oracle restricted to what finite costs can produce",
 ]
 ASSUMPTIONS = [
     "quantifier = the input domains of C01-C08, C10, C15 (their generators); grey_reconstruction with an explicit "
@@ -63,9 +70,11 @@ MAX_CALLS = 8              # recorded calls per kernel per case (all are counted
 
 # kernel codes of Model/EntryC19.v
 K_TLI, K_SKEL, K_IL, K_RECON, K_PROP, K_ARR, K_ACC, K_TRACE, K_FILL = 1, 2, 3, 4, 5, 6, 7, 8, 9
+K_HULL, K_MED, K_RT, K_AUG, K_EMD = 10, 11, 12, 13, 14
 MONITORED = {K_TLI: "table_lookup_index", K_SKEL: "skeletonize_loop", K_IL: "index_lookup",
              K_RECON: "grey_reconstruction_loop", K_PROP: "propagate", K_ARR: "augmenting_row_reduction", K_ACC: "_all_connected_components",
-             K_TRACE: "trace_outlines", K_FILL: "fill_labeled_holes_loop"}
+             K_TRACE: "trace_outlines", K_FILL: "fill_labeled_holes_loop", K_HULL: "convex_hull_ijv",
+             K_MED: "median_filter", K_RT: "reduction_transfer", K_AUG: "augment", K_EMD: "emd_hat_int32"}
 
 
 # =========================================================================================== spy
@@ -276,6 +285,95 @@ def _mk_spies(real):
                                                to_do_count, *a, **kw)
     spies["fill_labeled_holes_loop"] = fill_labeled_holes_loop
 
+    def convex_hull_ijv(in_labels_ijv, indexes_in, *a, **kw):
+        if _Rec.calls is not None and _note("convex_hull_ijv"):
+            try:
+                ijv = np.asarray(in_labels_ijv)
+                idxs = np.asarray(indexes_in).ravel()
+                if ijv.ndim != 2 or ijv.shape[1] != 3 or ijv.shape[0] == 0 or (ijv < 0).any() or (idxs < 0).any():
+                    _unmon("convex_hull_ijv", rejected=True)     # the asserts / max() of an empty array raise first
+                elif ijv.shape[0] > 1200:
+                    _unmon("convex_hull_ijv", too_large=True)
+                else:
+                    _rec(K_HULL, "convex_hull_ijv", [K_HULL, [[int(v) for v in r] for r in ijv.tolist()], _ints(idxs)])
+            except Exception as e:      # noqa
+                _unmon("convex_hull_ijv", spy_error=repr(e))
+        return real["convex_hull_ijv"](in_labels_ijv, indexes_in, *a, **kw)
+    spies["convex_hull_ijv"] = convex_hull_ijv
+
+    def median_filter(data, mask, output, radius, percent, *a, **kw):
+        if _Rec.calls is not None and _note("median_filter"):
+            try:
+                arrs = [np.asarray(x) for x in (data, mask, output)]
+                ok = all(x.ndim == 2 and x.dtype == np.uint8 and x.flags.c_contiguous for x in arrs)
+                if (not ok or not (0 <= int(percent) <= 100) or arrs[0].shape != arrs[1].shape
+                        or arrs[0].shape != arrs[2].shape):
+                    _unmon("median_filter", rejected=True)       # Cython's buffer check / the ValueErrors come first
+                else:
+                    pre = [K_MED]
+                    for x in arrs:
+                        pre += [int(x.shape[0]), int(x.shape[1]), int(x.strides[0]), int(x.strides[1])]
+                    pre += [int(radius), int(percent)]
+                    _rec(K_MED, "median_filter", pre)
+            except Exception as e:      # noqa
+                _unmon("median_filter", spy_error=repr(e))
+        return real["median_filter"](data, mask, output, radius, percent, *a, **kw)
+    spies["median_filter"] = median_filter
+
+    def reduction_transfer(ii, j, idx, count, x, u, v, c, *a, **kw):
+        if _Rec.calls is not None and _note("reduction_transfer"):
+            try:
+                if _small(ii, j, idx, count, x):
+                    pre = [K_RT, _ints(ii), _ints(j), _ints(idx), _ints(count), _ints(x), int(np.asarray(u).size),
+                           int(np.asarray(v).size), int(np.asarray(c).size)]
+                    _rec(K_RT, "reduction_transfer", pre, pre if np.asarray(j).size <= 300 else None)
+                else:
+                    _unmon("reduction_transfer", too_large=True)
+            except Exception as e:      # noqa
+                _unmon("reduction_transfer", spy_error=repr(e))
+        return real["reduction_transfer"](ii, j, idx, count, x, u, v, c, *a, **kw)
+    spies["reduction_transfer"] = reduction_transfer
+
+    def augment(n, ii, jj, idx, count, x, y, u, v, c, *a, **kw):
+        if _Rec.calls is not None and _note("augment"):
+            try:
+                if _small(ii, jj, idx, count, x, y) and np.asarray(jj).size <= 6000:
+                    _rec(K_AUG, "augment", [K_AUG, int(n), _ints(ii), _ints(jj), _ints(idx), _ints(count), _ints(x),
+                                            _ints(y), int(np.asarray(u).size), int(np.asarray(v).size),
+                                            int(np.asarray(c).size)])
+                else:
+                    _unmon("augment", too_large=True)
+            except Exception as e:      # noqa
+                _unmon("augment", spy_error=repr(e))
+        return real["augment"](n, ii, jj, idx, count, x, y, u, v, c, *a, **kw)
+    spies["augment"] = augment
+
+    def _ext(arr, addr):
+        """int32 elements between addr and the end of the allocation that owns arr's memory"""
+        base = arr
+        while isinstance(getattr(base, "base", None), np.ndarray):
+            base = base.base
+        end = base.ctypes.data + base.nbytes
+        return int((end - addr) // 4)
+
+    def emd_hat_int32(p, q, c, *a, **kw):
+        if _Rec.calls is not None and _note("emd_hat_int32"):
+            try:
+                cs = np.asarray(c)
+                if cs.ndim != 2 or len(p) != cs.shape[0] or len(q) != cs.shape[1]:
+                    _unmon("emd_hat_int32", rejected=True)       # the two asserts come first
+                else:
+                    pc, qc, cc = (np.ascontiguousarray(x, np.int32) for x in (p, q, c))   # what the kernel converts
+                    crowext = min([_ext(cc, cc.ctypes.data + i * cc.strides[0]) for i in range(cc.shape[0])] or [0])
+                    _rec(K_EMD, "emd_hat_int32",
+                         [K_EMD, int(len(p)), int(len(q)), int(pc.shape[0]) if pc.ndim == 1 else -1, _ext(pc, pc.ctypes.data),
+                          int(qc.shape[0]) if qc.ndim == 1 else -1, _ext(qc, qc.ctypes.data),
+                          int(cc.shape[0]), int(cc.shape[1]), crowext])
+            except Exception as e:      # noqa
+                _unmon("emd_hat_int32", spy_error=repr(e))
+        return real["emd_hat_int32"](p, q, c, *a, **kw)
+    spies["emd_hat_int32"] = emd_hat_int32
+
     def passthrough(name):
         def spy(*a, **kw):
             if _Rec.calls is not None and _note(name):
@@ -386,7 +484,8 @@ def _own_cases(ctx):
     def lab(a, fn, **kw):
         a = np.asarray(a)
         out.append({"owner": "own", "case": dict({"fn": fn, "a": a.astype(int).tolist(), "shape": list(a.shape)}, **kw)})
-    shapes = [(1, 1), (1, 2), (2, 1), (1, 7), (7, 1), (2, 2), (3, 3), (1, 40), (40, 1), (3, 50), (12, 12)]
+    shapes = [(1, 1), (1, 2), (2, 1), (1, 7), (7, 1), (3, 3), (3, 50), (12, 12)] if ctx.quick() else \
+        [(1, 1), (1, 2), (2, 1), (1, 7), (7, 1), (2, 2), (3, 3), (1, 40), (40, 1), (3, 50), (12, 12)]
     for fn in ("fill_labeled_holes", "skeletonize", "thin", "binary_shrink", "convex_hull", "get_outline_pts",
                "all_neighbors", "grey_reconstruction", "median_filter", "propagate", "table_lookup"):
         for (h, w) in shapes:
@@ -408,6 +507,7 @@ def _own_cases(ctx):
         out.append({"owner": "own", "case": {"fn": "lapjv_perm", "n": n, "seed": int(rng.randint(1 << 30))}})
         out.append({"owner": "own", "case": {"fn": "lapjv_perm2", "n": n, "seed": int(rng.randint(1 << 30))}})
     # length-1 / strided histograms for every stride
+    out.append({"owner": "own", "case": {"fn": "leak_probe"}})
     for stride in (1, 2, 3, 8, 64, 4096):
         for n in (1, 2):
             out.append({"owner": "own", "case": {"fn": "emd_strided", "n": n, "stride": stride}})
@@ -416,7 +516,7 @@ def _own_cases(ctx):
 
 def generate(ctx):
     tier = ctx.tier
-    want = ctx.n(230, 1500)
+    want = ctx.n(200, 1500)
     cases = []
     for name in OWNERS:
         t = time.time()
@@ -434,6 +534,8 @@ def generate(ctx):
 def _own_impl(c):
     from centrosome import cpmorphology as M
     fn = c["fn"]
+    if fn == "leak_probe":
+        return "ok"             # the probe runs in check(), in its own process against the plain build
     if fn == "propagate_big":
         from centrosome.propagate import propagate
         r = np.random.RandomState(c["seed"])
@@ -495,6 +597,10 @@ def _own_impl(c):
         M.grey_reconstruction(a.astype(float) * 0.5, a.astype(float))
         if min(a.shape) >= 1:
             M.grey_reconstruction(a * 0, a, np.ones((5, 3), bool))
+            # integer- and float-typed 0/1 footprints (accepted since the fix 6f73ae9 "boolean copy")
+            for dt in (np.uint8, np.int64, np.float64):
+                M.grey_reconstruction(a * 0, a, np.array([[0, 1, 0], [1, 1, 1], [0, 1, 0]], dt))
+                M.grey_reconstruction(a.astype(float) * 0.5, a.astype(float), np.ones((3, 3), dt))
     elif fn == "median_filter":
         from centrosome.filter import median_filter
         for radius in (1, 2, 5):
@@ -627,6 +733,104 @@ def run_asan(ctx, cases, jobs=8):
     return outs
 
 
+# =========================================================================================== leak observation
+LEAK_N = 2000
+LEAK_LIMIT = 16384          # bytes of malloc'ed memory still in use after LEAK_N further calls (unchanged tree: < 300)
+_LEAK_CODE = r"""
+import ctypes, gc, json, os, sys, warnings
+warnings.filterwarnings("ignore")
+import numpy as np
+class MI(ctypes.Structure):
+    _fields_ = [(n, ctypes.c_size_t) for n in ("arena", "ordblks", "smblks", "hblks", "hblkhd", "usmblks", "fsmblks",
+                                               "uordblks", "fordblks", "keepcost")]
+libc = ctypes.CDLL("libc.so.6")
+have = hasattr(libc, "mallinfo2")
+if have:
+    libc.mallinfo2.restype = MI
+def used():
+    if have:
+        m = libc.mallinfo2()
+        return int(m.uordblks + m.hblkhd)
+    return int(open("/proc/self/statm").read().split()[1]) * os.sysconf("SC_PAGE_SIZE")
+import centrosome
+assert os.path.realpath(centrosome.__file__).startswith(os.path.realpath(os.environ["VERIF_STAGE"]))
+from centrosome.propagate import propagate
+from centrosome.filter import median_filter
+from centrosome.cpmorphology import (fill_labeled_holes, grey_reconstruction, convex_hull, skeletonize,
+                                     all_connected_components, get_outline_pts, thin)
+from centrosome.lapjv import lapjv
+from centrosome import fastemd as E
+r = np.random.RandomState(0)
+img = r.rand(8, 8); lab = np.zeros((8, 8), int); lab[1, 1] = 1; lab[6, 6] = 2; msk = np.ones((8, 8), bool)
+u8 = (img * 255).astype(np.uint8)
+L = np.zeros((8, 8), int); L[1:7, 1:7] = 1; L[3:5, 3:5] = 0
+ii = np.arange(5).repeat(5); jj = np.tile(np.arange(5), 5); cc = r.rand(25)
+p = np.array([3, 1, 2], np.int32); q = np.array([1, 2, 3], np.int32)
+C = np.abs(np.subtract.outer(np.arange(3), np.arange(3))).astype(np.int32)
+probes = {
+    "propagate": lambda: propagate(img, lab, msk, 1.0),
+    "median_filter": lambda: median_filter(u8, msk, 2),
+    "fill_labeled_holes": lambda: fill_labeled_holes(L),
+    "grey_reconstruction": lambda: grey_reconstruction(img * 0.5, img),
+    "convex_hull": lambda: convex_hull(L),
+    "skeletonize": lambda: skeletonize(L > 0),
+    "thin": lambda: thin(L > 0),
+    "all_connected_components": lambda: all_connected_components(np.array([0, 1, 2]), np.array([1, 2, 0])),
+    "get_outline_pts": lambda: get_outline_pts(L, [1]),
+    "lapjv": lambda: lapjv(ii, jj, cc),
+    "emd_hat_int32": lambda: E.emd_hat_int32(p, q, C, flow_type=E.EMD_WITHOUT_EXTRA_MASS_FLOW),
+}
+N = int(sys.argv[1])
+out = {"metric": "mallinfo2" if have else "rss", "calls": {}}
+for name, f in probes.items():
+    n = max(100, N // 15) if name == "skeletonize" else N      # 30 ms per call in Python: fewer calls
+    for _ in range(max(20, n // 7)):
+        f()
+    gc.collect(); u0 = used()
+    for _ in range(n):
+        f()
+    gc.collect(); out[name] = used() - u0; out["calls"][name] = n
+print(json.dumps(out))
+"""
+
+
+def run_leak_probe(ctx):
+    """OBSERVATION, not proof: every kernel class LEAK_N times in one process against the PLAIN build;
+    growth of the malloc'ed bytes in use (glibc mallinfo2; RSS when unavailable)"""
+    from harness import core
+    if ctx.stage_info.get("asan"):
+        if _ASAN.get("plain") is None:
+            from harness import stage as stg
+            _ASAN["plain"] = stg.stage(asan=False)
+        scratch = _ASAN["plain"][0]
+    else:
+        scratch = ctx.scratch
+    env = dict(os.environ)
+    env.update({"PYTHONPATH": scratch + os.pathsep + VERIF, "PYTHONHASHSEED": "0", core.GUARD: "1",
+                "VERIF_STAGE": scratch, "OMP_NUM_THREADS": "1", "OPENBLAS_NUM_THREADS": "1", "MPLBACKEND": "Agg"})
+    r = subprocess.run([core.PY, "-c", _LEAK_CODE, str(LEAK_N)], env=env, capture_output=True, text=True, timeout=600)
+    if r.returncode != 0:
+        return {"error": "leak probe exited with %s: %s" % (r.returncode, r.stderr[-600:])}
+    return json.loads(r.stdout.strip().splitlines()[-1])
+
+
+def _leak_verdict(res):
+    if "error" in res:
+        return res["error"]
+    scale = 1 if res.get("metric") == "mallinfo2" else 64
+    calls = res.get("calls", {})
+    bad = {}
+    for k, v in res.items():
+        if isinstance(v, int):
+            limit = scale * max(2048, LEAK_LIMIT * calls.get(k, LEAK_N) // LEAK_N)      # 8 bytes per call, at least 2 KB
+            if v > limit:
+                bad[k] = {"growth_bytes": v, "calls": calls.get(k, LEAK_N), "limit": limit}
+    if bad:
+        return ("leak observation (plain build, repeated calls in one process, metric %s): malloc'ed memory still in use "
+                "grew: %s (unchanged tree: < 300 bytes)" % (res.get("metric"), json.dumps(bad)))
+    return None
+
+
 # =========================================================================================== checker
 def _crash_text(o):
     d = str(o.get("detail", ""))
@@ -646,6 +850,20 @@ def _asan_verdict(o):
     if str(o.get("status", "")).startswith("crash:"):
         return "address-sanitised build: child of the owner's impl crashed: " + o["status"][:300]
     return None
+
+
+def _run_model_parallel(ctx, entry, args, jobs=8):
+    """ctx.run_model in round-robin chunks on a thread pool (one extracted-program process per chunk)"""
+    from concurrent.futures import ThreadPoolExecutor
+    if len(args) < 200:
+        return ctx.run_model(entry, args)
+    chunks = [list(range(k, len(args), jobs)) for k in range(jobs)]
+    res = [None] * len(args)
+    with ThreadPoolExecutor(max_workers=jobs) as ex:
+        for ch, out in zip(chunks, ex.map(lambda ch: ctx.run_model(entry, [args[i] for i in ch]), chunks)):
+            for i, r in zip(ch, out):
+                res[i] = r
+    return res
 
 
 def check(ctx, cases, outs):
@@ -672,18 +890,14 @@ def check(ctx, cases, outs):
                 args.append(call["pre"]); where.append((ci, k))
                 ctx.count("pre:" + call["name"])
             else:
-                ctx.count(("too-large:" if call.get("too_large") else "unmonitored:") + call["name"])
+                ctx.count(("too-large:" if call.get("too_large") else "rejected-by-kernel:" if call.get("rejected")
+                           else "not-2d:" if call.get("not_2d") else "unmonitored:") + call["name"])
         for name, cnt in (o.get("counts") or {}).items():
             ctx.count("calls:" + name, cnt)
         verdicts[ci] = v
-    if args:
-        res = ctx.run_model("entry_pre", args)
-        for (ci, k), r in zip(where, res):
-            if r != 1 and verdicts[ci] is None:
-                call = outs[ci]["calls"][k]
-                verdicts[ci] = "kernel_pre_%s is FALSE on recorded call #%d of this case: args=%s" % (
-                    call["name"], k, json.dumps(call["pre"])[:600])
-    # (C) the address-sanitised build (main pass already under ASan in the thorough tier)
+    # (C) the address-sanitised build runs concurrently with the evaluation of the preconditions
+    asan_box = {}
+    asan_thread = None
     if not ctx.stage_info.get("asan"):
         if len(cases) <= 80:
             sel = list(range(len(cases)))
@@ -693,11 +907,55 @@ def check(ctx, cases, outs):
             k = ctx.n(700, 4000)
             pick = ctx.rng.choice(len(rest), size=min(len(rest), k), replace=False) if rest else []
             sel = own + sorted(rest[int(i)] for i in pick)
+
+        def _asan_job():
+            t = time.time()
+            try:
+                asan_box["outs"] = run_asan(ctx, [cases[i] for i in sel], jobs=6)
+            except Exception as e:      # noqa
+                asan_box["error"] = repr(e)
+            asan_box["t"] = round(time.time() - t, 1)
+        asan_thread = threading.Thread(target=_asan_job)
+        asan_thread.start()
+    leak_box, leak_thread = {}, None
+    leak_idx = [i for i, c in enumerate(cases) if c["owner"] == "own" and c["case"].get("fn") == "leak_probe"]
+    if leak_idx:
+        def _leak_job():
+            t = time.time()
+            try:
+                leak_box["res"] = run_leak_probe(ctx)
+            except Exception as e:      # noqa
+                leak_box["res"] = {"error": "leak probe failed: %r" % (e,)}
+            leak_box["t"] = round(time.time() - t, 1)
+        leak_thread = threading.Thread(target=_leak_job)
+        leak_thread.start()
+    if args:
         t = time.time()
-        aouts = run_asan(ctx, [cases[i] for i in sel])
-        ctx.timings["asan_run"] = ctx.timings.get("asan_run", 0) + round(time.time() - t, 1)
+        res = _run_model_parallel(ctx, "entry_pre", args, jobs=8)
+        ctx.timings["pre_eval"] = ctx.timings.get("pre_eval", 0) + round(time.time() - t, 1)
+        for (ci, k), r in zip(where, res):
+            if r != 1 and verdicts[ci] is None:
+                call = outs[ci]["calls"][k]
+                verdicts[ci] = "kernel_pre_%s is FALSE on recorded call #%d of this case: args=%s" % (
+                    call["name"], k, json.dumps(call["pre"])[:600])
+    if leak_thread is not None:
+        leak_thread.join()
+        ctx.timings["leak_probe"] = ctx.timings.get("leak_probe", 0) + leak_box.get("t", 0)
+        res = leak_box["res"]
+        for k, v in res.items():
+            if isinstance(v, int):
+                ctx.counters["leak_growth_bytes:" + k] = v
+        v = _leak_verdict(res)
+        if v:
+            for i in leak_idx:
+                verdicts[i] = verdicts[i] or v
+    if asan_thread is not None:
+        asan_thread.join()
+        if "error" in asan_box:
+            raise RuntimeError("ASan pass failed: " + asan_box["error"])
+        ctx.timings["asan_run"] = ctx.timings.get("asan_run", 0) + asan_box.get("t", 0)
         ctx.count("asan_cases", len(sel))
-        for i, o in zip(sel, aouts):
+        for i, o in zip(sel, asan_box["outs"]):
             v = _asan_verdict(o)
             if v and verdicts[i] is None:
                 verdicts[i] = v
@@ -780,8 +1038,9 @@ MANIFEST = {
                    "every recorded kernel call; the behaviour of the compiled object is observed (address-sanitised "
                    "build over the generators of C01-C08, C10, C15), not proved"),
     "level_note": ("not expressible in the model: malloc/realloc failure, int32 wrap of flat indices beyond 2^31 "
-                   "elements, in-bounds reads of uninitialised locals (augmenting_row_reduction j1/j2), the C++ "
-                   "containers of FastEMD, Cython buffer unpacking, leaks (detect_leaks=0)"),
+                   "elements, the C++ containers of FastEMD, Cython buffer unpacking; not proved: augment's main loop "
+                   "(needs an augmenting path + mark invariants), the hull write bound in general (C02 no_overflow); "
+                   "leaks are observed by repeated calls (mallinfo2 growth), not proved"),
     "technique": "Coq index-safety theorems + run-time boundary monitoring with extracted checkers + ASan search",
     "design_ref": "DESIGN.md section 7, C19; section 8",
 }
